@@ -142,6 +142,21 @@ def loadtxt(
         # byte streams are written as latin1 by numpy.savetxt
         header = header.decode(encoding if encoding not in (None, "bytes") else "latin1")
 
+    # the header is a comment line: the marker (with or without blanks around
+    # it), then "numpoly:"
+    markers = [comments] if isinstance(comments, (str, bytes)) else list(comments or [])
+    markers = [
+        (marker.decode("latin1") if isinstance(marker, bytes) else marker).strip()
+        for marker in markers
+    ]
+    header = header.lstrip()
+    is_polynomial = any(
+        marker
+        and header.startswith(marker)
+        and header[len(marker) :].lstrip().startswith("numpoly:")
+        for marker in markers
+    )
+
     array = numpy.loadtxt(
         fname,
         dtype=dtype,
@@ -150,30 +165,22 @@ def loadtxt(
         converters=converters,
         skiprows=skiprows,
         usecols=usecols,
-        unpack=unpack,
+        # (the columns of a polynomial file are its terms, not an array axis)
+        unpack=unpack and not is_polynomial,
         ndmin=ndmin,
         max_rows=max_rows,
         encoding=encoding,
     )
 
-    # the header is a comment line: the marker (with or without a blank after
-    # it), then "numpoly:"
-    markers = [comments] if isinstance(comments, (str, bytes)) else list(comments or [])
-    markers = [
-        (marker.decode("latin1") if isinstance(marker, bytes) else marker).strip()
-        for marker in markers
-    ]
-    if any(
-        marker
-        and header.startswith(marker)
-        and header[len(marker) :].lstrip().startswith("numpoly:")
-        for marker in markers
-    ):
+    if is_polynomial:
         match = re.search(HEADER_REGEX, header)
         assert match is not None
         groups = match.groups()
         names = tuple(groups[0].split(","))
         keys = groups[1].split(",")
+        if usecols is not None:
+            # the terms that were read, in the order they were asked for
+            keys = [keys[idx] for idx in numpy.atleast_1d(usecols)]
         # 0-d polynomials have an empty shape field
         shape = [int(idx) for idx in groups[2].split(",") if idx]
         dtype = numpy.dtype([(key, array.dtype) for key in keys])
@@ -183,5 +190,7 @@ def loadtxt(
         struct = unstructured_to_structured(array, dtype)
         array = numpoly.polynomial(struct, names=names)
         array = numpoly.reshape(array, shape)
+        if unpack:
+            array = numpoly.transpose(array)
 
     return array
